@@ -101,6 +101,7 @@ func TestE2EShareAcks(t *testing.T) {
 			fmt.Fprintf(os.Stderr, "PLAN %+v\n", p)
 		}
 		var sawGapBelow, sawRenewThenTerminal, moved, sawAutoAccept, sawCloseRelease bool
+		nearLimit := 0
 		bubble.Run(t, rt, func(e *bubble.Env) {
 			e.StartCluster(bubble.ClusterOpts{Brokers: p.Brokers, Topics: map[string]int32{"sh": p.Parts},
 				// no acquisition lock expires inside a plan: every redelivery is caused by an explicit release or a close
@@ -379,8 +380,21 @@ func TestE2EShareAcks(t *testing.T) {
 			mustReturn := map[int64]bool{}
 			for _, m := range members {
 				for _, id := range m.lastUnacked {
-					if delivered[where[id]] < 5 { // kfake archives a record after 5 deliveries
+					// kfake archives a record instead of releasing it once it has been acquired 5 times
+					// (group.share.delivery.count.limit). Acquisitions include fetches the client buffered
+					// and released without ever surfacing them, so count the releases the broker saw.
+					releases := 0
+					mu.Lock()
+					for _, ty := range wireCovered[where[id]] {
+						if ty == 2 {
+							releases++
+						}
+					}
+					mu.Unlock()
+					if delivered[where[id]] < 5 && releases < 3 {
 						mustReturn[id] = true
+					} else {
+						nearLimit++
 					}
 				}
 				m.cl.Close()
@@ -447,6 +461,9 @@ func TestE2EShareAcks(t *testing.T) {
 		}
 		if sawCloseRelease {
 			ev.Class("e2e-unacked-at-close")
+		}
+		if nearLimit > 0 {
+			ev.Class("e2e-unacked-at-close-near-delivery-limit-not-required")
 		}
 		if moved {
 			ev.Class("e2e-leader-move")
